@@ -94,6 +94,7 @@ func (fr *Frame) enterLoop(li *loopInfo, head *ssa.BasicBlock) {
 			ec := fr.evalCtx(entryMem, fr.entryMem)
 			ec.loop = li
 			ec.loopEntry = entryMem
+			ec.goal = true
 			g, err := ec.tryBool(inv.E)
 			if err != nil {
 				ex.failOb("contract-typechecks", fmt.Sprintf("loop%d-inv%d", li.ord, i+1), err.Error()+" in "+inv.Src, head.Instrs[0].Pos())
@@ -217,6 +218,7 @@ func (fr *Frame) checkBackEdge(li *loopInfo, from *ssa.BasicBlock) {
 			ec := fr.evalCtx(mem, fr.entryMem)
 			ec.loop = li
 			ec.loopEntry = li.entryMemForOld
+			ec.goal = true
 			g, err := ec.tryBool(inv.E)
 			if err != nil {
 				ex.failOb("contract-typechecks", fmt.Sprintf("loop%d-inv%d-back", li.ord, i+1), err.Error()+" in "+inv.Src, head.Instrs[0].Pos())
